@@ -246,10 +246,15 @@ func c09Run(c c09Case, st *fw.Stats) []fw.Viol {
 	}
 	// the router stays fully usable: every follow-up request behaves as on a fresh identical router
 	base := newC09Router(c)
-	for _, kind := range kindNames {
-		if kind == "panic" && c.Hook == "absent" && !c.PanicsMW {
-			// that request panics by itself; still compared
+	// the follow-up that panics by itself comes last, so that the twin stays panic-free until then
+	order := make([]string, 0, len(kindNames))
+	for _, k := range kindNames {
+		if k != "panic" {
+			order = append(order, k)
 		}
+	}
+	order = append(order, "panic")
+	for _, kind := range order {
 		st.Evals++
 		st.Nontrivial++
 		seen := map[*rux.Context]bool{}
